@@ -171,12 +171,17 @@ JREL = 'depccg/printer/ja.py'
 
 
 class JaRec(Contract):
-    rel, qualname = JREL, 'ja_of.rec'
+    rel, role = JREL, 'ja_of.rec'
+
+    def __init__(self):
+        from contracts.printers import find_recursive_helper
+        # nested in ja_of or a module-level function it calls: found by role (the recursive function the encoder calls)
+        self.qualname = find_recursive_helper(JREL, 'ja_of', 'ja_of.rec')
 
     def closure_env(self, I, f):
         m = I.load_module('depccg.printer.ja')
         env = Env(m.env)
-        env.set('rec', f)
+        env.set(f.node.name, f)
         return env
 
     def cases(self, I):
